@@ -51,7 +51,7 @@ def rowid_lists(max_len):
 
 
 @st.composite
-def indx_cases(draw, max_entries=40, max_rowids=50):
+def indx_cases(draw, max_entries=40, max_rowids=50, very_long=False):
     arity = draw(st.integers(1, 4))
     cc = draw(st.integers(0, 3))
     kc = draw(st.integers(0, 3))
@@ -71,7 +71,10 @@ def indx_cases(draw, max_entries=40, max_rowids=50):
         # one long entry (writers may treat long arrays differently from short ones)
         k = draw(st.integers(0, len(coords) - 1))
         n = draw(st.sampled_from([255, 256, 257, 1000, 4100]))
-        start = draw(st.sampled_from([0, 3, 2 ** 31 - 100, TOP32 - 3 * 4100]))
+        if very_long and draw(st.integers(0, 3)) == 0:
+            # 16 Ki / 64 Ki row ids (64 KiB / 256 KiB of payload): buffered or chunked writers switch strategy here
+            n = draw(st.sampled_from([16383, 16384, 20000, 65541]))
+        start = draw(st.sampled_from([0, 3, 2 ** 31 - 100, TOP32 - 3 * n]))  # the last id stays <= 2^32 - 1
         step = draw(st.integers(1, 3))
         rowids[k] = list(range(start, start + step * n, step))
     return {"common": common, "arity": arity,
